@@ -156,3 +156,223 @@ def chains(max_len, depth, scheme, method=False, rng=None, per_stage=6, root="ds
             out.append((s, k))
             frontier.append((s, k, n + 1))
     return out
+
+
+# ---- random deep queries (thorough tiers of C02 / C18) ------------------------------------------
+class RandQ:
+    """Kind-directed random generator of CLOSED queries over the data model, function form.
+    Covers nested operators, closures over outer binders, called lambdas (1 and 2 positional
+    parameters), First push-through, packaging into tuple/list/dict followed by constant projection,
+    arithmetic / comparison / conditional, and binder-name re-use (probability `reuse`)."""
+
+    FIELDS = {"E": [("met", "I"), ("jets", ("seq", "J")), ("tracks", ("seq", "T"))],
+              "J": [("pt", "I"), ("eta", "I"), ("tracks", ("seq", "T"))],
+              "T": [("pt", "I"), ("z0", "I")]}
+    METHODS = {"E": [("MET()", "I"), ("scaled(2)", "I")],
+               "J": [("ptk()", "I"), ("shift(1, b=2)", "I"), ("ptk(3)", "I")],
+               "T": [("ptk(3)", "I")]}
+
+    def __init__(self, rng, reuse=0.3):
+        self.rng, self.reuse, self.k = rng, reuse, 0
+
+    def fresh(self, scope):
+        if scope and self.rng.random() < self.reuse:
+            return self.rng.choice(scope)[0]
+        self.k += 1
+        return f"v{self.k}"
+
+    def bind(self, scope, v, kind):
+        return [(n, k) for n, k in scope if n != v] + [(v, kind)]
+
+    def pick(self, opts):
+        for _ in range(8):
+            r = self.rng.choice(opts)()
+            if r is not None:
+                return r
+        return None
+
+    def obj(self, kind, scope, d):
+        """an expression of record kind E / J / T"""
+        vs = [n for n, k in scope if k == kind]
+        opts = [lambda: self.rng.choice(vs)] * (3 if vs else 0)
+        if d > 0 and kind in ("J", "T"):
+            opts.append(lambda: self._first(kind, scope, d - 1))
+            opts.append(lambda: self._proj(kind, scope, d - 1))
+        if d > 0 and vs:
+            opts.append(lambda: self._called(kind, scope, d - 1))
+        return self.pick(opts) if opts else None
+
+    def _first(self, kind, scope, d):
+        s = self.seq(kind, scope, d)
+        return None if s is None else f"First({s})"
+
+    def _proj(self, kind, scope, d):
+        """package two values, take one back out with a constant selector"""
+        a = self.any_of(kind, scope, d)
+        b = self.intx(scope, 0)
+        if a is None or b is None:
+            return None
+        form = self.rng.randrange(5)
+        return [f"({a}, {b})[0]", f"({b}, {a})[1]", f"[{a}, {b}][0]", f"{{'a': {a}, 'b': {b}}}.a",
+                f"{{'a': {b}, 'k': {a}}}['k']"][form]
+
+    def _called(self, kind, scope, d):
+        """(lambda p: <kind from p>)(arg) / two-parameter form"""
+        ak = self.rng.choice(["I", "J", "T", "E"])
+        arg = self.any_of(ak, scope, d)
+        if arg is None:
+            return None
+        p = self.fresh(scope)
+        body = self.any_of(kind, self.bind(scope, p, ak), d)
+        if body is None:
+            return None
+        if self.rng.random() < 0.4:
+            q = self.fresh(scope)
+            if q != p:
+                arg2 = self.intx(scope, 0)
+                body2 = self.any_of(kind, self.bind(self.bind(scope, p, ak), q, "I"), d)
+                if arg2 is not None and body2 is not None:
+                    return f"(lambda {p}, {q}: {body2})({arg}, {arg2})"
+        return f"(lambda {p}: {body})({arg})"
+
+    def any_of(self, kind, scope, d):
+        if kind == "I":
+            return self.intx(scope, d)
+        if kind == "B":
+            return self.boolx(scope, d)
+        if isinstance(kind, tuple):
+            return self.seq(kind[1], scope, d)
+        return self.obj(kind, scope, d)
+
+    def intx(self, scope, d):
+        r = self.rng
+        objs = [(n, k) for n, k in scope if k in self.FIELDS]
+        ints = [n for n, k in scope if k == "I"]
+        opts = [lambda: str(r.randint(0, 5))]
+        if ints:
+            opts += [lambda: r.choice(ints)] * 2
+        if objs:
+            def fld():
+                n, k = r.choice(objs)
+                f = [f for f, fk in self.FIELDS[k] if fk == "I"] + [m for m, mk in self.METHODS[k]]
+                return f"{n}.{r.choice(f)}"
+            opts += [fld] * 3
+        if d > 0:
+            opts += [
+                lambda: self._bin(scope, d - 1),
+                lambda: self._cond(scope, d - 1),
+                lambda: self._count(scope, d - 1),
+                lambda: self._fieldof(scope, d - 1),
+                lambda: self._proj("I", scope, d - 1),
+                lambda: self._called("I", scope, d - 1),
+            ]
+        return self.pick(opts)
+
+    def _bin(self, scope, d):
+        a, b = self.intx(scope, d), self.intx(scope, d)
+        return None if a is None or b is None else f"({a} {self.rng.choice(['+', '-', '*'])} {b})"
+
+    def _cond(self, scope, d):
+        a, b, c = self.intx(scope, d), self.boolx(scope, d), self.intx(scope, d)
+        return None if None in (a, b, c) else f"({a} if {b} else {c})"
+
+    def _count(self, scope, d):
+        k = self.rng.choice(["J", "T"])
+        s = self.seq(k, scope, d)
+        if s is None:
+            return None
+        return f"Count({s})"
+
+    def _fieldof(self, scope, d):
+        k = self.rng.choice(["J", "T", "E"])
+        o = self.obj(k, scope, d)
+        if o is None:
+            return None
+        f = [f for f, fk in self.FIELDS[k] if fk == "I"] + [m for m, mk in self.METHODS[k]]
+        return f"{o}.{self.rng.choice(f)}"
+
+    def boolx(self, scope, d):
+        r = self.rng
+        a, b = self.intx(scope, max(d - 1, 0)), self.intx(scope, max(d - 1, 0))
+        if a is None or b is None:
+            return None
+        base = f"{a} {r.choice(['>', '<', '>=', '==', '!='])} {b}"
+        if d > 0 and r.random() < 0.3:
+            c = self.boolx(scope, d - 1)
+            if c is not None:
+                return f"({base} {r.choice(['and', 'or'])} {c})"
+        return base
+
+    def seq(self, ek, scope, d):
+        """an expression denoting a sequence of element kind ek (E only from the root `ds`)"""
+        r = self.rng
+        opts = []
+        if ek == "E":
+            opts.append(lambda: "ds")
+        for n, k in scope:
+            if k in self.FIELDS:
+                for f, fk in self.FIELDS[k]:
+                    if fk == ("seq", ek):
+                        opts.append(lambda n=n, f=f: f"{n}.{f}")
+        if d > 0:
+            opts += [lambda: self._where(ek, scope, d - 1), lambda: self._select(ek, scope, d - 1),
+                     lambda: self._smany(ek, scope, d - 1)]
+        return self.pick(opts) if opts else None
+
+    def _src_kind(self):
+        return self.rng.choice(["E", "J", "T", "J"])
+
+    def _where(self, ek, scope, d):
+        s = self.seq(ek, scope, d)
+        if s is None:
+            return None
+        v = self.fresh(scope)
+        b = self.boolx(self.bind(scope, v, ek), d)
+        return None if b is None else f"Where({s}, lambda {v}: {b})"
+
+    def _select(self, ek, scope, d):
+        sk = self._src_kind()
+        s = self.seq(sk, scope, d)
+        if s is None:
+            return None
+        v = self.fresh(scope)
+        b = self.any_of(ek, self.bind(scope, v, sk), d)
+        return None if b is None else f"Select({s}, lambda {v}: {b})"
+
+    def _smany(self, ek, scope, d):
+        sk = self._src_kind()
+        s = self.seq(sk, scope, d)
+        if s is None:
+            return None
+        v = self.fresh(scope)
+        b = self.seq(ek, self.bind(scope, v, sk), d)
+        return None if b is None else f"SelectMany({s}, lambda {v}: {b})"
+
+    def query(self, d):
+        r = self.rng
+        kind = r.choice(["I", "J", "T", "I", "B"])
+        top = r.randrange(4)
+        if top == 0:
+            s = self.seq(r.choice(["J", "T", "E"]), [], d)
+            return None if s is None else f"Count({s})"
+        if top == 1:
+            return self._select(kind, [], d) if kind != "B" else self._select("I", [], d)
+        if top == 2:
+            return self._where("E", [], d)
+        return self._smany(r.choice(["J", "T"]), [], d)
+
+
+def random_queries(rng, n, depth, reuse=0.3):
+    g = RandQ(rng, reuse)
+    out, seen, tries = [], set(), 0
+    while len(out) < n and tries < n * 30:
+        tries += 1
+        try:
+            q = g.query(rng.randint(2, depth))
+        except RecursionError:
+            continue
+        if q is None or len(q) > 600 or q in seen:
+            continue
+        seen.add(q)
+        out.append(q)
+    return out
